@@ -45,6 +45,7 @@ func (o *in) fireCmd() error {
 		o.Unlock()
 		return err
 	}
+	verifTrace("started")
 	o.Unlock()
 	go func() {
 		for {
@@ -60,6 +61,9 @@ func (o *in) fireCmd() error {
 
 			if o.listener != nil {
 				o.listener(data, abstime)
+				verifTrace("line-delivered")
+			} else {
+				verifTrace("line-dropped")
 			}
 			o.RUnlock()
 			runtime.Gosched()
@@ -82,12 +86,14 @@ func (o *in) fireCmd() error {
 				}
 				o.Lock()
 				o.hasProc = false
+				verifTrace("killed")
 				o.Unlock()
 				wasKilled <- true
 				return
 			case <-shouldStopListening:
 				o.Lock()
 				o.listener = nil
+				verifTrace("listener-cleared")
 				o.Unlock()
 				didStopListening <- true
 			default:
@@ -208,6 +214,7 @@ func (i *in) Listen(onMsg func(msg []byte, absmilliseconds int32), conf drivers.
 		}
 		onMsg(data, absmilliseconds)
 	}
+	verifTrace("listener-set")
 	i.Unlock()
 
 	return stopFn, nil
